@@ -40,7 +40,7 @@ def _cfg(path, consts, invariants, emit=None):
         f.write("CHECK_DEADLOCK FALSE\n")
 
 
-FIXED = dict(HardOffset=False, Overwrite=False, SamplerI=False, Mutate=False, Dedup=True, Validate=True)
+FIXED = dict(HardOffset=False, Overwrite=False, SamplerI=False, Mutate=False, Dedup=True, Validate=True, AllowUnrigged=False)
 
 
 # --------------------------------------------------------------------------
@@ -102,6 +102,9 @@ def generator_plan(tier):
             ("shapes", dict(MeshIds={2, 3, 5}, SkelIds=ALL_SK, AnimKinds=ALL_AN, TrsKinds={0}, MaxModels=1, MaxLights=0), None),
             # every ordered pair: plain / skinned / animated / invalid / skipped, shared and distinct skeletons, then a light
             ("pairs", dict(MeshIds={1, 2, 6}, SkelIds={2, 6}, AnimKinds={0, 3, 5}, TrsKinds={0}, MaxModels=2, MaxLights=1), None),
+            # a skeleton on a mesh without Joint / Weight (mesh 1) or rigged for more joints than it has (mesh 5 on 1, 2)
+            ("unrigged", dict(MeshIds={1, 2, 5}, SkelIds={1, 2, 5}, AnimKinds={0, 1}, TrsKinds={0}, MaxModels=1, MaxLights=0,
+                              AllowUnrigged=True), None),
             ("walks", dict(MeshIds={1, 2, 3, 4, 5, 6}, SkelIds=ALL_SK, AnimKinds={0, 1, 2, 3, 4}, TrsKinds={0, 1}, MaxModels=4, MaxLights=1),
              dict(num=100, depth=6)),
         ]
@@ -109,6 +112,8 @@ def generator_plan(tier):
         ("shapes", dict(MeshIds={2, 3, 4, 5}, SkelIds=ALL_SK, AnimKinds=ALL_AN, TrsKinds={0, 1}, MaxModels=1, MaxLights=1), None),
         ("pairs", dict(MeshIds={1, 2, 4, 6}, SkelIds={2, 6, 8}, AnimKinds={0, 3, 5, 8}, TrsKinds={0}, MaxModels=2, MaxLights=1), None),
         ("triples", dict(MeshIds={1, 2, 6}, SkelIds={2, 4}, AnimKinds={0, 3, 6}, TrsKinds={0}, MaxModels=3, MaxLights=0), None),
+        ("unrigged", dict(MeshIds={1, 2, 3, 5}, SkelIds={1, 2, 5}, AnimKinds={0, 1, 5}, TrsKinds={0}, MaxModels=2, MaxLights=0,
+                          AllowUnrigged=True), None),
         ("walks", dict(MeshIds={1, 2, 3, 4, 5, 6}, SkelIds=ALL_SK, AnimKinds=ALL_AN, TrsKinds={0, 1}, MaxModels=5, MaxLights=2),
          dict(num=1000, depth=8)),
     ]
@@ -120,7 +125,7 @@ def generate_cases(ctx, notes):
 
     def one(item):
         name, consts, sim = item
-        consts = dict(consts, **FIXED)
+        consts = dict(FIXED, **consts)
         cfg = os.path.join(d, "Gen_%s.cfg" % name)
         _cfg(cfg, consts, [], emit="EmitLeaf" if sim else "Emit")
         if sim:
@@ -163,7 +168,7 @@ def generate_cases(ctx, notes):
 
 def random_cases(ctx, vh, notes):
     d = ctx.scratch("rnd")
-    n, maxv, maxj, maxf = (240, 10, 8, 8) if ctx.tier == "quick" else (3000, 24, 14, 30)
+    n, maxv, maxj, maxf = (240, 10, 8, 8) if ctx.tier == "quick" else (2000, 24, 14, 30)
     p = os.path.join(d, "r.ndjson")
     core.run_vh(vh, ["xanim-random", "-out", p, "-seed", str(ctx.seed), "-n", str(n), "-maxv", str(maxv), "-maxj", str(maxj),
                      "-maxf", str(maxf)])
@@ -231,7 +236,7 @@ def execute_and_judge(ctx, vh, cases, name="main", batch=4000):
 
 
 REQUIRED = ["glb", "text", "glb-again", "text-again", "scene-valid", "scene-invalid", "invalid-refused",
-            "invalid-no-skeleton", "invalid-unknown-joint", "invalid-no-frames", "invalid-times-not-increasing", "invalid-negative-time",
+            "invalid-no-skeleton", "invalid-mesh-not-rigged", "invalid-unknown-joint", "invalid-no-frames", "invalid-times-not-increasing", "invalid-negative-time",
             "skinned", "no-skin", "skinned-and-plain", "skinned-not-first", "two-skeletons", "skeleton-shared",
             "empty-skinned-model-skipped", "skeleton-single-joint", "skeleton-chain", "skeleton-star", "skeleton-tree",
             "skeleton-depth>=3", "joint-oriented", "positions-off-lattice", "skinned-no-sequence", "sequence-one-frame",
